@@ -270,6 +270,32 @@ var oracles = map[string]oracle{
 	}
 `
 	}},
+	"runtime.UnmarshalInputToOptions": {"testpb", "testpb", `"google.golang.org/protobuf/proto"; "google.golang.org/protobuf/encoding/protowire"; "google.golang.org/protobuf/types/dynamicpb"`, func(in map[string]concVal) string {
+		return `
+	// hand-written concretiser for the merge clause: a singular message field occurring twice must merge
+	var sub1 []byte
+	sub1 = protowire.AppendTag(sub1, 1, protowire.BytesType)
+	sub1 = protowire.AppendString(sub1, "a")
+	var in []byte
+	in = protowire.AppendTag(in, 17, protowire.BytesType)
+	in = protowire.AppendBytes(in, sub1)
+	in = protowire.AppendTag(in, 17, protowire.BytesType)
+	in = protowire.AppendBytes(in, nil)
+	m := &A{}
+	if err := proto.Unmarshal(in, m); err != nil {
+		t.Skip(err)
+	}
+	ref := dynamicpb.NewMessage((&A{}).ProtoReflect().Descriptor())
+	if err := proto.Unmarshal(in, ref); err != nil {
+		t.Skip(err)
+	}
+	want := ref.Get(ref.Descriptor().Fields().ByName("MESSAGE")).Message()
+	wantX := want.Get(want.Descriptor().Fields().ByName("x")).String()
+	if got := m.GetMESSAGE().GetX(); got != wantX {
+		violated(t, "field MESSAGE occurring twice: generated decoder gives x=%q, reference gives x=%q (second occurrence replaced the first instead of merging)", got, wantX)
+	}
+`
+	}},
 	"runtime.Sov": {"runtime", "runtime", `"google.golang.org/protobuf/encoding/protowire"`, func(in map[string]concVal) string {
 		return fmt.Sprintf(`
 	x := uint64(%s)
